@@ -163,6 +163,140 @@ def native_check_v2(kind, L, x, y, x2, y2, payload, a, byte_at, patches):
     return False, 'real code behaves correctly on the model bytes', f
 
 
+# --------------------------------------------------------------------------- v2: batch of two tiles in one store_tiles call
+def goal_batch_v2(C, nbytes, part=None):
+    """store_tiles with two tiles of the same bundle (a meta tile, a defragmentation row): the second record is appended
+    behind the first, both read back, the observed third slot is outside everything written"""
+    st = V2(C, nbytes)
+    s = CTX.solver
+    x3, y3 = z3.BitVec('x3', W), z3.BitVec('y3', W)
+    e = [z3.BitVec('e%d' % i, 8) for i in range(2)]
+    s.add(z3.ULT(x3, 2 ** 31), z3.ULT(y3, 2 ** 31))
+    st.x3, st.y3, st.e = x3, y3, e
+    off_b, size_b = st.entry(st.arr0, st.L, st.x2, st.y2)
+    s.add(inv_v2(st.arr0, st.L, off_b, size_b))
+    st.b.store_tiles([_STile((BV64(st.x), BV64(st.y), 0), SymBytes(st.d)), _STile((BV64(x3), BV64(y3), 0), SymBytes(e))])
+    arr1, L1 = st.disk.files['bundle']
+    L1 = bv(L1)
+    off_1, size_1 = st.entry(arr1, L1, st.x, st.y)
+    off_2, size_2 = st.entry(arr1, L1, x3, y3)
+    same12 = z3.And(z3.URem(st.x, 128) == z3.URem(x3, 128), z3.URem(st.y, 128) == z3.URem(y3, 128))
+    same_other = z3.Or(st.same_slot(), z3.And(z3.URem(x3, 128) == z3.URem(st.x2, 128), z3.URem(y3, 128) == z3.URem(st.y2, 128)))
+    a = st.a
+    in_old_record = z3.And(size_b != 0, z3.UGE(a, off_b - 4), z3.ULT(a, off_b + size_b))
+    second_at = st.L + 4 + nbytes + 4
+    parts = {
+        'second-readback': z3.And(off_2 == second_at, size_2 == 2, *[z3.Select(arr1, second_at + i) == e[i] for i in range(2)]),
+        'first-readback': z3.Implies(z3.Not(same12), z3.And(off_1 == st.L + 4, size_1 == nbytes,
+                                                             *[z3.Select(arr1, st.L + 4 + i) == st.d[i] for i in range(nbytes)])),
+        'other-entry': z3.Implies(z3.Not(same_other), untouched(st.disk.log, 'bundle', v2_index_addr(st.x2, st.y2), 8)),
+        'other-bytes': z3.Implies(z3.And(z3.Not(same_other), in_old_record), untouched(st.disk.log, 'bundle', a)),
+        'length': L1 == second_at + 2,
+    }
+    goal = parts[part] if part else z3.And(*parts.values())
+    return goal, st
+
+
+def native_batch_v2(c, byte_at, patches):
+    """the real store_tiles with two tiles on concrete bytes; True = violation reproduced"""
+    import contextlib
+    C = load_compact(False, patches)
+    b = C.BundleV2.__new__(C.BundleV2)
+    L = c['L']
+    f = ModelFile(L, byte_at)
+
+    def entry(xx, yy):
+        rx, ry = b._rel_tile_coord((xx, yy, 0))
+        return tuple(b._tile_offset_size(f, rx, ry))
+    before = entry(c['x2'], c['y2'])
+    old_a = f.get(c['a'])
+
+    class FH(object):
+        def __getattr__(self, kk):
+            return getattr(f, kk)
+
+        def __enter__(self):
+            return self
+
+        def __exit__(self, *a_):
+            pass
+    C.__dict__['open'] = lambda name, mode='r': FH()
+
+    @contextlib.contextmanager
+    def lock(*a_, **kw):
+        yield
+    C.FileLock = lock
+
+    @contextlib.contextmanager
+    def tile_buffer(tile):
+        class Buf(object):
+            def read(self_):
+                return tile.source
+        yield Buf()
+    C.tile_buffer = tile_buffer
+    b.filename, b.lock_filename = '/b/x.bundle', '/b/x.lck'
+    b.file_permissions = b.directory_permissions = None
+    b._init_index = lambda: None
+    p1, p2 = bytes(c['payload']), bytes(c['payload2'])
+    try:
+        b.store_tiles([_STile((c['x'], c['y'], 0), p1), _STile((c['x3'], c['y3'], 0), p2)])
+    except Exception as ex:
+        return True, 'real code raised %s: %s' % (type(ex).__name__, ex)
+    second_at = L + 4 + len(p1) + 4
+
+    def record(off, size):
+        f.seek(off)
+        return f.read(size) if 0 < size < 64 else b''
+    o2, s2 = entry(c['x3'], c['y3'])
+    if (o2, s2) != (second_at, len(p2)) or record(o2, s2) != p2:
+        return True, 'second tile of the batch decodes to entry %s (expected %s)' % ((o2, s2), (second_at, len(p2)))
+    slot = lambda xx, yy: (xx % 128, yy % 128)   # noqa
+    if slot(c['x'], c['y']) != slot(c['x3'], c['y3']):
+        o1, s1 = entry(c['x'], c['y'])
+        if (o1, s1) != (L + 4, len(p1)) or record(o1, s1) != p1:
+            return True, 'first tile of the batch decodes to entry %s' % ((o1, s1),)
+    if f.length != second_at + len(p2):
+        return True, 'file length %d after the batch, expected %d' % (f.length, second_at + len(p2))
+    if slot(c['x2'], c['y2']) not in (slot(c['x'], c['y']), slot(c['x3'], c['y3'])):
+        if entry(c['x2'], c['y2']) != before:
+            return True, 'entry of another slot changed from %s to %s' % (before, entry(c['x2'], c['y2']))
+        if before[1] and before[0] - 4 <= c['a'] < before[0] + before[1] and f.get(c['a']) != old_a:
+            return True, 'byte %d of another record changed' % c['a']
+    return False, 'real code stores the batch correctly on the model bytes'
+
+
+def run_v2_batch(spec):
+    a = spec['args']
+    nbytes = a.get('n', 3)
+    patches = _patches(spec)
+    try:
+        C = load_compact(True, patches)
+    except PatchDoesNotApply as e:
+        return dict(status='skipped', detail=str(e))
+    if spec['kind'] == 'witness':
+        res, st = run_sym(lambda: (z3.BoolVal(False), goal_batch_v2(C, nbytes)[1]))
+    else:
+        res, st = run_sym(lambda: goal_batch_v2(C, nbytes, a.get('part')))
+    out = dict(status=res.status, stats=res.stats, detail=res.reason or (res.exc or ''), engine='E4',
+               functions=['BundleV2.store_tiles', 'BundleV2._readwrite', 'BundleV2._store_tile', 'BundleV2._append_tile', 'BundleV2._update_tile_offset',
+                          'BundleV2._update_metadata', 'BundleV2._tile_offset_size'])
+    if res.status == 'sat' and st is not None:
+        m = res.model
+        ev = lambda t: m.eval(t, model_completion=True).as_long()   # noqa
+        vals = dict(batch=True, L=ev(st.L), x=ev(st.x), y=ev(st.y), x2=ev(st.x2), y2=ev(st.y2), x3=ev(st.x3), y3=ev(st.y3), a=ev(st.a),
+                    payload=[ev(d) for d in st.d], payload2=[ev(d) for d in st.e])
+        if spec['kind'] == 'witness':
+            out['cex'] = vals
+            return out
+        f0 = ModelFile(vals['L'], model_byte_fn(m, st.arr0))
+        for p in list(range(0, 64)) + [64 + 8 * ((xx % 128) + 128 * (yy % 128)) + i for xx, yy in ((vals['x'], vals['y']), (vals['x2'], vals['y2']), (vals['x3'], vals['y3'])) for i in range(8)]:
+            f0.get(p)
+        ok, detail = native_batch_v2(vals, model_byte_fn(m, st.arr0), patches)
+        vals['bytes'] = {str(k): v for k, v in sorted(f0.reads.items())[:400]}
+        out.update(cex=vals, replayed=ok, detail=(out['detail'] + ' | replay: ' + detail).strip(' |'))
+    return out
+
+
 def run_v2(spec):
     a = spec['args']
     kind, nbytes = a['op'], a.get('n', 3)
@@ -253,6 +387,8 @@ def replay(body):
     c = body['cex']
     if c.get('entry_roundtrip'):
         return native_entry_roundtrip(c, _patches(body))
+    if c.get('batch'):
+        return native_batch_v2(c, map_byte_fn(c.get('bytes', {})), _patches(body))
     if c.get('v1'):
         ok, detail, _ = native_check_v1(c, map_byte_fn(c.get('idx_bytes', {})), map_byte_fn(c.get('dat_bytes', {})), _patches(body))
         return ok, detail
@@ -735,6 +871,11 @@ def obligations(tier, seed):
     specs.append(_spec('canary/v2 index entry size silently cut to 24 bits', 'run_v2_entry', kind='canary', cost=5,
                        patches={'mapproxy.cache.compact': [["        val = offset + (size << 40)\n", "        val = offset + ((size & 0xffffff) << 40)\n"]]}))
     specs.append(_spec('twin/v2-store', 'run_v2', kind='witness', op='store', n=3, cost=5))
+    for part in ['second-readback', 'first-readback', 'other-entry', 'other-bytes', 'length']:
+        specs.append(_spec('v2/store-batch-of-two/payload3+2/%s' % part, 'run_v2_batch', n=3, part=part, cost=60))
+    specs.append(_spec('twin/v2-store-batch', 'run_v2_batch', kind='witness', n=3, cost=5))
+    specs.append(_spec('canary/v2 batch positions the handle once', 'run_v2_batch', kind='canary', n=3, part='second-readback', cost=20,
+                       patches={'mapproxy.cache.compact': [["        fh.seek(0, os.SEEK_END)\n        fh.write(struct.pack('<L', len(data)))", "        if fh.tell() == 0:\n            fh.seek(0, os.SEEK_END)\n        fh.write(struct.pack('<L', len(data)))"]]}))
     for label, op, patches in (CANARIES if tier == 'thorough' else CANARIES[:3]):
         specs.append(_spec('canary/' + label, 'run_v2', kind='canary', op=op, n=3, cost=20,
                            patches={m: [list(x) for x in lst] for m, lst in patches.items()}))
